@@ -118,7 +118,8 @@ theorem consumedOut_resIdle (cfg : Cfg) (c : Conn) : ConsumedOut (resIdle cfg c)
   · rename_i h; intro _; exact h
   · simp only
     split
-    · rcases txCreate cfg _ with ⟨c1, u⟩
+    · unfold resIdleUnmatched
+      rcases txCreate cfg _ with ⟨c1, u⟩
       simp only
       cases u with
       | none => exact consumedOut_of_noData _ NoData.error
@@ -366,20 +367,23 @@ theorem noData_resFraming (te cl ct : Option Parse.Header) (uid : Nat) (c : Conn
   repeat' split
   all_goals first | exact NoData.ok | exact noData_resCl ..
 
+theorem noData_resFramingStep (uid : Nat) (t : Tx) (te cl : Option Parse.Header) (c : Conn) : NoData (resFramingStep uid t te cl c).2 := by
+  unfold resFramingStep
+  split
+  · exact noData_resFraming ..
+  · exact NoData.ok
+
 theorem noData_resBodyDetermineRest (cfg : Cfg) (uid : Nat) (t : Tx) (c : Conn) : NoData (resBodyDetermineRest cfg uid t c).2 := by
   unfold resBodyDetermineRest
-  extract_lets
-  rename_i r
+  extract_lets c1 cl te is100
   split
   · exact noData_txStateResponseHeaders ..
-  · split
+  · clear_value is100
+    split
     · exact NoData.ok
     · apply noData_andThen
-      · simp only [r]
-        split
-        · exact noData_resFraming ..
-        · exact NoData.ok
-      · intro c1; exact noData_txStateResponseHeaders ..
+      · exact noData_resFramingStep ..
+      · intro c2; exact noData_txStateResponseHeaders ..
 
 theorem noData_resBodyDetermine (cfg : Cfg) (c : Conn) : NoData (resBodyDetermine cfg c).2 := by
   unfold resBodyDetermine
@@ -423,6 +427,25 @@ theorem wf_peekSet (d : Dir) (w : WFCur d) : WFCur (d.peekSet).1 := by
 
 theorem peekSet_snd (d : Dir) : (d.peekSet).2 = d.peek := rfl
 theorem peekSet_read_len (d : Dir) : (d.peekSet).1.read = d.read ∧ (d.peekSet).1.len = d.len := ⟨rfl, rfl⟩
+
+theorem noData_resLineAsBody (cfg : Cfg) (uid : Nat) (dn : Bool) (data line : Bytes) (cr : Nat) (c : Conn) :
+    NoData (resLineAsBody cfg uid dn data line cr c).2 := by
+  unfold resLineAsBody
+  simp only []
+  repeat' split
+  all_goals first | exact NoData.ok | exact NoData.error | exact noData_resProcessBodyData ..
+
+theorem noData_resLineComplete (cfg : Cfg) (uid : Nat) (closed : Bool) (c : Conn) : NoData (resLineComplete cfg uid closed c).2 := by
+  unfold resLineComplete
+  simp only []
+  repeat' split
+  all_goals first
+    | exact NoData.ok
+    | exact NoData.error
+    | exact noData_resLineAsBody ..
+    | (apply noData_andThen
+       · exact noData_txStateResponseLine ..
+       · intro c9; exact NoData.ok)
 
 theorem consumedOut_resLineLoop (cfg : Cfg) (fuel : Nat) (c : Conn) (w : WFCur c.out) : ConsumedOut (resLineLoop cfg fuel c) := by
   induction fuel generalizing c with
@@ -505,15 +528,7 @@ theorem consumedOut_resLineLoop (cfg : Cfg) (fuel : Nat) (c : Conn) (w : WFCur c
           split
           · exact ih _ w2
           · -- a complete line (or the end of the stream): nothing below answers DATA
-            apply consumedOut_of_noData
-            repeat' split
-            all_goals first
-              | exact NoData.ok
-              | exact NoData.error
-              | (apply noData_andThen
-                 · exact noData_txStateResponseLine ..
-                 · intro c9; exact NoData.ok)
-              | exact noData_resProcessBodyData ..
+            exact consumedOut_of_noData _ (noData_resLineComplete ..)
 
 
 theorem peek_some_lt (d : Dir) (b : UInt8) (h : d.peek = some b) : d.read < d.len := by
